@@ -1,5 +1,6 @@
 import RustCcModel.T1.FinalComplete
 import RustCcModel.Model.Machine
+import RustCcModel.Proofs.PassBound
 /-! # C06 — resurrection is safe, precise, terminates
 
 Safety and precision after a finalization pass are C01 / C02 applied to the re-buffered state (the
@@ -42,5 +43,12 @@ theorem collectLoop_single_pass (c : Cfg) (w : World) (n : Nat) (oldFin oldDrop 
     stepFrame c w (.collectLoop n oldFin oldDrop) =
       { w with collecting := false, finalizing := oldFin, dropping := oldDrop } := by
   simp [stepFrame, hfin, hn]
+
+/-- **A collection cannot run forever on account of its finalizers**: in every reachable world every active `collect` has
+started at most `passCap` tracing passes (one without the `finalization` feature); each pass terminates
+(`counting_terminates`, both queues drain with fuel = number of objects). -/
+theorem passes_bounded (c : Cfg) (nH nW nK : Nat) (w : World) (h : Reachable c nH nW nK w) (n : Nat) (oF oD : Bool)
+    (hm : Frame.collectLoop n oF oD ∈ w.stack) : n ≤ (if c.fin then c.passCap else 1) :=
+  reachable_pbOk h n oF oD hm
 
 end RustCc.C06
